@@ -321,6 +321,18 @@ def run(ctx):
                     okret = isinstance(inner, tuple) and inner[0] == 'field' and not any(isinstance(x, tuple) and x[0] in ('modby', 'phi') for x in walk(inner))
     rep.check(r5, okret, 'proto::repl:dns-reply-unmodified', 'the datagram reply is exactly the value returned by DNSPacket::repl: %s' % okret)
 
+    # the serialised message is handed back whole: nothing shortens or edits the Vec between the serialiser and the return
+    dr = F.fn('<proto::dns::DNSPacket as proto::dissector::MPacket>::repl')
+    SHORTEN = r'Vec::<[^>]*>::(truncate|drain|split_off|resize|resize_with|pop|remove|swap_remove|clear|retain|retain_mut|set_len|dedup\w*|insert|splice)$'
+    somes = []
+    cut = []
+    for rb in [b for b in range(dr.n) if dr.blocks[b]['term']['k'] == 'return' and not dr.blocks[b]['cleanup']]:
+        for alt in palts(dr.ret_value(rb), unwraps=False):
+            if isinstance(alt, tuple) and alt[0] == 'agg' and str(alt[1]).endswith('Option::Some'):
+                somes.append(alt)
+                cut += [x[1] for x in walk(alt) if isinstance(x, tuple) and x[0] == 'modby' and re.search(SHORTEN, x[1])]
+    rep.check(r5, bool(somes) and not cut, 'answer:returned-whole', 'the Vec returned by DNSPacket::repl is the serialiser output, not shortened or edited afterwards: %s' % (sorted(set(c_.split('::')[-1] for c_ in cut)) or 'no length-changing operation'), '%s:%d' % (dr.file, dr.line))
+
     # R6: the byte parsers of questions and records (both are used on the reply path: the answer is re-parsed)
     r6 = rep.rule('C14-R6', 'question / record parsers: a name ends at (and only at) the zero byte - the state leaves Name only on path states with *byte == 0; type and class are the code tables applied to the accumulated 16-bit words, unmodified', floor=6)
     for ty in ['rr::DNSRR', 'query::DNSQuery']:
@@ -347,4 +359,6 @@ def run(ctx):
                 al = palts(a, unwraps=False)
                 ok = bool(al) and all((isinstance(x, tuple) and x[0] == 'entry' and Fn.path_of(x[1])[-1:] == [('f', acc)]) or (is_call(x, r'PacketDissector::<T>::read_u16$') and acc in short(x)) for x in al)
             rep.check(r6, ok, '%s:%s-conversion' % (ty.split('::')[-1], fld), '%s <- %s (required: the code table applied to %s as accumulated)' % (fld, [short(w)[:80] for w in ws], acc), '%s:%d' % (f.file, f.line))
+    dispatch_sound(ctx, 'C14', 'a datagram reaches the DNS parser (after NO_MATCH)')
+
 
